@@ -31,7 +31,7 @@ BIG_JOB_C19 = {'world': 'big', 'src': 'worlds/big_world.c', 'lib': BIG_LIB, 'uni
 PROPS = {
     'C12': {
         'level': 'model_checking',
-        'claim': 'Exhaustive: every operation of the dlist API applied in every reachable state of 2-3 lists over a pool of 4-6 elements (closure), each transition executed on the real code and compared with an array model in both traversal directions; also under ASan with erased elements poisoned. sort and foreach callbacks verify their private pointer, find is driven with a bare key and a (key, member) comparison function; odd configurations are built with CSTL_DLIST_INITIALIZER; plus lists of up to 4097 elements.',
+        'claim': 'Exhaustive: every operation of the dlist API applied in every reachable state of 2-3 lists over a pool of 4-5 (thorough up to 8) elements (closure), each transition executed on the real code and compared with an array model in both traversal directions; also under ASan with erased elements poisoned. sort and foreach callbacks verify their private pointer, find is driven with a bare key and a (key, member) comparison function; odd configurations are built with CSTL_DLIST_INITIALIZER; plus lists of up to 4097 elements.',
         'note': E1_NOTE,
         'technique': 'explicit-state BFS to closure on the real code vs reference model (replay-based states)',
         'jobs': [{'world': 'dlist', 'src': 'worlds/dlist_world.c', 'lib': ['dlist.c'], 'flavours': RELDBG_ALWAYS}, BIG_JOB],
@@ -41,7 +41,7 @@ PROPS = {
     },
     'C13': {
         'level': 'model_checking',
-        'claim': 'Exhaustive: every slist operation (push_back and pop_front in every state, erase_after at every position relative to the tail) applied in every reachable state of 2-3 lists over 4-6 elements, compared with an array model. The sort comparator and the visit function verify their private pointer; odd configurations are built with CSTL_SLIST_INITIALIZER; plus lists of up to 4097 elements.',
+        'claim': 'Exhaustive: every slist operation (push_back and pop_front in every state, erase_after at every position relative to the tail) applied in every reachable state of 2-3 lists over 4-5 (thorough up to 8) elements, compared with an array model. The sort comparator and the visit function verify their private pointer; odd configurations are built with CSTL_SLIST_INITIALIZER; plus lists of up to 4097 elements.',
         'note': E1_NOTE,
         'technique': 'explicit-state BFS to closure on the real code vs reference model (replay-based states)',
         'jobs': [{'world': 'slist', 'src': 'worlds/slist_world.c', 'lib': ['slist.c'], 'flavours': RELDBG_ALWAYS}, BIG_JOB],
@@ -73,7 +73,7 @@ PROPS = {
     },
     'C07': {
         'level': 'model_checking',
-        'claim': 'Exhaustive within scope: every heap shape reachable by push/pop/clear/swap over pools of 7-8 (thorough 8-10) elements incl. ties and sign-only/reversed comparators; max-at-root, exact removal and level-order completeness in every state. The second heap object is of another kind (comparator, private pointer, node offset); swap-pair pushes and pops through the receiving object; CSTL_HEAP_INITIALIZER is compared field by field with cstl_heap_init and used on odd configurations; plus every heap size up to 2^16+3 (thorough 2^17+3) and cstl_fls against a reference.',
+        'claim': 'Exhaustive within scope: every heap shape reachable by push/pop/clear/swap over pools of 7-8 (thorough 8-12) elements incl. ties and sign-only/reversed comparators; max-at-root, exact removal and level-order completeness in every state. The second heap object is of another kind (comparator, private pointer, node offset); swap-pair pushes and pops through the receiving object; CSTL_HEAP_INITIALIZER is compared field by field with cstl_heap_init and used on odd configurations; plus every heap size up to 2^16+3 (thorough 2^17+3) and cstl_fls against a reference.',
         'note': E1_NOTE,
         'technique': 'explicit-state BFS to closure on the real code vs multiset model',
         'jobs': [{'world': 'heap', 'src': 'worlds/heap_world.c', 'lib': ['heap.c', 'bintree.c', 'common.c'], 'flavours': RELDBG_ALWAYS},
@@ -167,7 +167,7 @@ PROPS = {
     },
     'C05': {
         'level': 'model_checking',
-        'claim': 'Exhaustive within scope: closure over alloc (with clear callback, and of size 0) / share / swap / reset / weak_from / lock / weak_reset / weak_swap on 3 (thorough 4) shared and 2 weak pointer objects, and alloc / release / swap / reset on 2 unique pointer objects; for every single operation the sequence of destruction events (clear callback, free of the managed block, free of the bookkeeping block) observed through the callback and the allocation layer must equal the reference model\'s prediction for that operation - which pins never-earlier and never-later; get(), unique() and the number of live blocks are compared in every state. One configuration uses a clear callback that resets every weak pointer referring to the allocation being cleared; odd configurations are built with the *_PTR_INITIALIZER macros; plus 65535, 65536, 65537 and 70000 simultaneous owners / weak references of one allocation, released in two orders.',
+        'claim': 'Exhaustive within scope: closure over alloc (with clear callback, and of size 0) / share / swap / reset / weak_from / lock / weak_reset / weak_swap on 3 (thorough up to 5) shared and 2 (thorough up to 3) weak pointer objects, and alloc / release / swap / reset on 2 unique pointer objects; for every single operation the sequence of destruction events (clear callback, free of the managed block, free of the bookkeeping block) observed through the callback and the allocation layer must equal the reference model\'s prediction for that operation - which pins never-earlier and never-later; get(), unique() and the number of live blocks are compared in every state. One configuration uses a clear callback that resets every weak pointer referring to the allocation being cleared; odd configurations are built with the *_PTR_INITIALIZER macros; plus 65535, 65536, 65537 and 70000 simultaneous owners / weak references of one allocation, released in two orders.',
         'note': E1_NOTE + ' lock() resets its target first (as documented by the code), so locking into the last owner of the same allocation destroys it and yields an empty pointer.',
         'technique': 'explicit-state BFS to closure on the real code vs reference-count model with per-operation destruction-event oracle',
         'jobs': [{'world': 'ptr', 'src': 'worlds/ptr_world.c', 'lib': ['memory.c'], 'flavours': RELDBG_ALWAYS}, BIG_JOB],
@@ -189,7 +189,7 @@ PROPS = {
     'C16': {
         'level': 'fault_enumeration',
         'engine': 'faultx',
-        'claim': 'Exhaustive fault enumeration: for each of nine operation scripts (map, vector with constructor/destructor, string, wstring, hash incl. failed resize followed by later successful ones, unique/shared/weak pointers, array incl. re-targeting a sliced object, a vector of 300 elements and a string of 186 characters cut down to a fraction and regrown) every single allocation call failing, every suffix of allocation calls failing, every pair and every triple is executed (call ordinals counted within each execution); after every step the container is compared with a reference model and must either show the normal result or - only when a fault was injected in that step - the documented failure with the previous content intact; the script then continues, everything is cleared and the allocation layer audits leaks, double frees and foreign frees; all under AddressSanitizer.',
+        'claim': 'Exhaustive fault enumeration: for each of nine operation scripts (map, vector with constructor/destructor, string, wstring, hash incl. failed resize followed by later successful ones, unique/shared/weak pointers, array incl. re-targeting a sliced object, a vector of 300 elements and a string of 186 characters cut down to a fraction and regrown) every single allocation call failing, every suffix of allocation calls failing, every pair and every triple, and then EVERY subset of the first n+3 call ordinals (n = allocation calls of the fault-free run; all nine scripts have n <= 12, so 2^15 plans at most) is executed (call ordinals counted within each execution); after every step the container is compared with a reference model and must either show the normal result or - only when a fault was injected in that step - the documented failure with the previous content intact; the script then continues, everything is cleared and the allocation layer audits leaks, double frees and foreign frees; all under AddressSanitizer.',
         'note': 'Trusted: the scripts and their reference models; interposition of malloc/calloc/realloc with ld --wrap (every allocation the library makes goes through these). Fault sets of size <= 3 plus all suffixes; larger fault sets are not enumerated.',
         'technique': 'exhaustive enumeration of allocation-fault sets (deviation-bounded: 0,1,2,3 faults + all suffixes) over scripted histories on the real code, reference model per step',
         'jobs': [{'world': 'faultx', 'src': 'worlds/fault_world.c', 'lib': ['map.c', 'rbtree.c', 'bintree.c', 'vector.c', 'string.c', 'memory.c', 'array.c', 'common.c'], 'unity': True, 'flavours': RELDBG_ALWAYS}],
